@@ -21,6 +21,10 @@ from mv import common
 from mv.common import VERIF
 
 NCPU = os.cpu_count() or 4
+# runs against a scratch copy (MV_REPO, used by the mutation self-tests) never touch the official evidence / replays
+SCRATCH = "MV_REPO" in os.environ
+EVID_DIR = (VERIF / ".work" / "evidence-scratch") if SCRATCH else (VERIF / "evidence")
+REPLAY_DIR = (VERIF / ".work" / "replays-scratch") if SCRATCH else (VERIF / "replays")
 
 
 def ensure_deps() -> bool:
@@ -194,8 +198,8 @@ def main(argv: list[str]) -> int:
             unknown.append(v)
     for info in known_seen.values():
         print(f"KNOWN-FINDING: property={prop} {info['what']}  (observed {info['n']}x this run)")
-    (VERIF / "replays").mkdir(exist_ok=True)
-    for old in (VERIF / "replays").glob(f"{prop}-*.json"):
+    REPLAY_DIR.mkdir(parents=True, exist_ok=True)
+    for old in REPLAY_DIR.glob(f"{prop}-*.json"):
         old.unlink()
     seen_keys = set()
     n_reported = 0
@@ -203,7 +207,7 @@ def main(argv: list[str]) -> int:
         if v["key"] in seen_keys and n_reported >= 10:
             continue
         seen_keys.add(v["key"])
-        path = VERIF / "replays" / f"{prop}-{n_reported}.json"
+        path = REPLAY_DIR / f"{prop}-{n_reported}.json"
         path.write_text(json.dumps({"property": prop, "key": v["key"], "msg": v["msg"], "detail": v.get("detail"),
                                     "case": v["case"], "seed": seed, "tier": tier}, indent=1))
         print(f"VIOLATION property={prop} replay={path}  key={v['key']}")
@@ -241,8 +245,8 @@ def main(argv: list[str]) -> int:
         "wall_s": round(wall, 2),
         "violations": len(unknown),
     }
-    (VERIF / "evidence").mkdir(exist_ok=True)
-    (VERIF / "evidence" / f"{prop}.json").write_text(json.dumps(ev, indent=1))
+    EVID_DIR.mkdir(parents=True, exist_ok=True)
+    (EVID_DIR / f"{prop}.json").write_text(json.dumps(ev, indent=1))
     c = merged["counters"]
     print(f"{prop} {tier} seed={seed}: cases={merged['evaluations']}/{len(cases)} distinct={len(merged['distinct'])} "
           f"violations={len(unknown)} known={sum(i['n'] for i in known_seen.values())} "
